@@ -39,18 +39,18 @@ func WithCallback(cb string, pathItem *PathItem) NewCallbackOption {
 func (callback *Callback) Validate(ctx context.Context, opts ...ValidationOption) error {
 	ctx = WithValidationOptions(ctx, opts...)
 
-	// An operation of a callback may refer to that callback again:
-	// a callback met while it is being validated is not entered a second time.
-	inProgress, _ := ctx.Value(callbacksInValidationKey{}).(map[*Callback]struct{})
-	if _, ok := inProgress[callback]; ok {
+	// An operation of a callback may refer to that callback again, and several
+	// operations may refer to the same callback: a callback met while it is being
+	// validated, or already validated below the same outermost callback, is not
+	// entered a second time.
+	entered, _ := ctx.Value(callbacksInValidationKey{}).(map[*Callback]struct{})
+	if entered == nil {
+		entered = make(map[*Callback]struct{})
+		ctx = context.WithValue(ctx, callbacksInValidationKey{}, entered)
+	} else if _, ok := entered[callback]; ok {
 		return nil
 	}
-	entered := make(map[*Callback]struct{}, len(inProgress)+1)
-	for k := range inProgress {
-		entered[k] = struct{}{}
-	}
 	entered[callback] = struct{}{}
-	ctx = context.WithValue(ctx, callbacksInValidationKey{}, entered)
 
 	keys := make([]string, 0, callback.Len())
 	for key := range callback.Map() {
